@@ -48,7 +48,7 @@ let run id =
     (* n, then per table: name k ref*k ; then m and a permutation of [0, m) *)
     let n = next_int () in
     let raw = times n (fun () -> let name = next_int () in let k = next_int () in let refs = times k next_int in (name, refs)) in
-    let tab x = { t_name = nat_of_int x; t_id = nat_of_int x } in
+    let tab x = { t_name = nat_of_int x; t_schema = O; t_id = nat_of_int x } in
     let cs = Stdlib.List.map (fun (name, refs) ->
       AddTable (tab name, Stdlib.List.mapi (fun i r -> { f_sym = nat_of_int (100 * name + i); f_tab = tab name; f_ref = tab r }) refs)) raw in
     let deps = dependencies cs in
